@@ -563,7 +563,9 @@ impl Lexer<'_> {
             match mode {
                 LexerMode::ExpectSymbol(tok_type, tok_channel) => {
                     // If we were expecting a token - call lexing that will effectively
-                    // emit an error and the token
+                    // emit an error and the token. It pops the mode it handles, so put
+                    // the mode back first, otherwise the next pending mode would be lost
+                    self.push_mode(LexerMode::ExpectSymbol(tok_type, tok_channel));
                     self.lex_expected_token(None, tok_type, tok_channel);
                 }
                 LexerMode::ExpectSemiOrEOF | LexerMode::MacroDo => {
